@@ -1,6 +1,6 @@
 (* C13 - Layout, comments, case and line endings never change what is parsed.  Statements only. *)
 From Coq Require Import ZArith NArith List Bool Ascii String.
-Require Import CGT.Model.Date CGT.Model.Dsl CGT.Proofs.DslFacts.
+Require Import CGT.Model.Date CGT.Model.Dsl CGT.Proofs.DslFacts CGT.Proofs.DslCase.
 Import ListNotations.
 Open Scope N_scope.
 
@@ -32,6 +32,17 @@ Theorem C13_nothing_skipped : forall valid_cur s ts, parse valid_cur s = inr ts 
   Forall (fun l => l <> LFail) (map (parse_line valid_cur) (split_lines [] s)).
 Proof. exact parse_nothing_skipped. Qed.
 
+(* Letter case: two texts that differ only in the case of letters (keywords, currency codes, tickers, even comments) are read
+   identically - same transactions, or the same offending line and reason.  For every text, of any length. *)
+Theorem C13_letter_case : forall valid_cur s s', map upper s = map upper s' -> parse valid_cur s = parse valid_cur s'.
+Proof. exact parse_case_insensitive. Qed.
+Example C13_letter_case_applies :
+  let a := T "2024-02-29 buy brk9 1.5 @ 10 usd fees 0.5 # Note" in
+  let b := T "2024-02-29 BUY Brk9 1.5 @ 10 USD Fees 0.5 # nOTE" in
+  map upper a = map upper b /\ exists t, parse (fun _ => true) a = inr [t] /\ x_tick t = T "BRK9".
+Proof. cbv zeta. split; [reflexivity|]. eexists. split; [vm_compute; reflexivity|reflexivity]. Qed.
+
+Print Assumptions C13_letter_case.
 Print Assumptions C13_blank_line.
 Print Assumptions C13_comment_line.
 Print Assumptions C13_leading_blanks.
